@@ -458,3 +458,26 @@ package cputensor
 
 // the mean of the fibres, un-squeezed, broadcasts back onto the tensor it was reduced from: subtracting it keeps the shape
 //@ lemma unsqRedShape: forallT(o, forallT(u, forallT(m, forallT(x, forallI(d, imp(unsqShape(u, m, d) && redShape(m, x, d) && 0 <= d && d < rank(x) && bshape(o, x, u), sameShape(o, x)))))))
+
+/* ---------------- L2: nested []any data (DESIGN.md 3.2) ---------------- */
+
+// WF(d, A, lo, hi): d is well-formed for the dimension sizes A[lo..hi): lo == hi is a float64 leaf, otherwise a
+// slice of exactly A[lo] well-formed children. Map1 / Map2 relate trees leaf by leaf.
+//@ predicate WF(d Data, A Idx, lo Int, hi Int) := ite(lo >= hi, isF(d), isS(d) && slen(d) == A[lo] && forall(i, 0, A[lo], WF(child(d, i), A, lo+1, hi)))
+//@ predicate Map1(f Fn, a Data, r Data, A Idx, lo Int, hi Int) := ite(lo >= hi, fval(r) == app1(f, fval(a)), forall(i, 0, A[lo], Map1(f, child(a, i), child(r, i), A, lo+1, hi)))
+//@ predicate Map2(f Fn, a Data, b Data, r Data, A Idx, lo Int, hi Int) := ite(lo >= hi, fval(r) == app2(f, fval(a), fval(b)), forall(i, 0, A[lo], Map2(f, child(a, i), child(b, i), child(r, i), A, lo+1, hi)))
+
+//@ abstract scalarUnaryFunc(x float64) (y float64)
+//@   ensures y == app1(self, x)
+//@ abstract scalarBinaryFunc(x float64, z float64) (y float64)
+//@   ensures y == app2(self, x, z)
+//@ abstract tensorReducerFunc(u *CPUTensor) (y float64)
+//@   ensures y == appT(self, u)
+
+// calcData: the tree recursion of the element-wise unary operations
+//@ func applyUnaryFuncOnTensorElemWise#0
+//@   requires a != nil && r != nil && suf != nil && forall(k, 0, len(dims), dims[k] >= 0)
+//@   requires WF(*a, arrOf(dims), offOf(dims), endOf(dims))
+//@   modifies *r
+//@   ensures[C03] WF(*r, arrOf(dims), offOf(dims), endOf(dims)) && Map1(suf, *a, *r, arrOf(dims), offOf(dims), endOf(dims))
+//@   loop 0 invariant forall(j, 0, i, WF(rRows[j], arrOf(dims), offOf(dims), endOf(dims)) && Map1(suf, aRows[j], rRows[j], arrOf(dims), offOf(dims), endOf(dims)))
